@@ -9,7 +9,7 @@ from appsweep import *
 
 def bounds(t):
     if t == 'quick': return dict(target_cap=4, content_cap=2, methods=['GET'], entries=['execute', 'legacy'], ranges=['none'], first=['slash'],
-                                 grammar=dict(methods=['GET'], ranges=['none'], leads=['/', ''], nsegs=[1, 2], tails=['']))
+                                 grammar=dict(methods=['GET'], ranges=['none'], leads=['/', ''], nsegs=[1, 2, 3], tails=['']))
     return dict(target_cap=6, content_cap=2, methods=['GET', 'HEAD', 'OPTIONS', 'POST'], entries=['execute', 'legacy'], ranges=['none', 'open'], first=['slash', 'other'], other_cap=3,
                 grammar=dict(methods=['GET', 'HEAD'], ranges=['none', 'open'], leads=['/', '', '//h/', 'http://h/'], nsegs=[1, 2, 3], tails=['', '/', '?a', '#a']))
 
@@ -23,7 +23,7 @@ def case(prog, params):
 
     def term(o):
         k = outcome_kind(o.outcome); res['kinds'][k] = res['kinds'].get(k, 0) + 1
-        if o.outcome[0] == 'stop' and not o.outcome[1].startswith('fs-mutation'):
+        if o.outcome[0] == 'stop' and not o.outcome[1].startswith(('fs-mutation', 'domain:invalid-utf8-lossy')):
             res['inconclusive'].append({'status': o.outcome[1], 'error': str(o.outcome[2])[:300]})
         log = fs_accesses(o)
         seen = set()
@@ -35,17 +35,37 @@ def case(prog, params):
             seen.add(key)
             bad = escapes_root(path)
             if bad is False: continue
-            r, m = ex.check(o.pc, bad)
-            if r == 'unknown': res['inconclusive'].append({'status': 'solver-unknown', 'error': 'containment query'}); continue
-            if r == 'sat':
+            # refinement loop: the lazily created filesystem does not know that every ancestor of the root is a directory, so a
+            # "content read" of the root's parent itself (/r/.., /r/../.) is a spurious model; such path values are blocked and
+            # the solver is asked again (bounded), instead of reporting a witness that no tree can realise
+            blocked = []
+            for _round in range(12):
+                r, m = ex.check(o.pc, b_and(bad, *blocked) if blocked else bad)
+                if r == 'unknown': res['inconclusive'].append({'status': 'solver-unknown', 'error': 'containment query'}); break
+                if r != 'sat': break
                 t = model_bytes(m, target); p = model_bytes(m, path)
+                if op == 'read' and is_ancestor_of_root(p.decode('latin1')):
+                    blocked.append(b_not(path.eq(S(p)))); res['spurious_blocked'] = res.get('spurious_blocked', 0) + 1
+                    continue
                 res['violations'].append({'key': 'C01:%s-outside-root:%s' % ('content-read' if op == 'read' else 'probe', params['entry']),
                                           'text': '%s of %r (outside the served root) for target %r via %s' % (op, p.decode('latin1'), t.decode('latin1'), params['entry']),
                                           'op': op, 'witness': {'params': params, 'target': t.decode('latin1'), 'path': p.decode('latin1')}})
+                break
+            else:
+                res['inconclusive'].append({'status': 'refinement-bound', 'error': 'more than 12 ancestor-directory models for one read'})
     run_entry(ex, st, req, params['entry'], on_terminal=term)
     res.update(H.ex_summary(ex))
     if params.get('sample'): res['samples'].append({'case': params, 'kinds': res['kinds'], 'fs_accesses_checked': res['accesses']})
     return res
+
+
+def is_ancestor_of_root(p, root=ROOT):
+    """the path names the root itself or one of its ancestors (necessarily a directory in any tree)"""
+    import posixpath
+    if isinstance(root, bytes): root = root.decode('latin1')
+    n = posixpath.normpath(p)
+    if n.startswith('//'): n = n[1:]
+    return n == '/' or root == n or root.startswith(n.rstrip('/') + '/')
 
 
 def replay_native(oracle, w):
@@ -107,7 +127,7 @@ def main():
             for rg in G['ranges']:
                 for lead in G['leads']:
                     for nseg in G['nsegs']:
-                        if nseg >= 3 and (m != 'GET' or rg != 'none'): continue
+                        if nseg >= 3 and (m != 'GET' or rg != 'none' or (chk.tier == 'quick' and lead != '/')): continue
                         for lens in itertools.product(range(0, 7), repeat=nseg):
                             for tail in (G['tails'] if nseg < 3 else ['']):
                                 cases.append(dict(entry=entry, method=m, range=rg, segs=list(lens), lead=lead, tail=tail))
